@@ -361,7 +361,7 @@ fn programs_part(ctx: &Ctx, res: &mut PartResult, with_global: bool, nrec: usize
     res.executions = execs;
     res.transitions = trans;
     if capped {
-        res.cap_hit = Some("wall budget".into());
+        res.cap_hit = Some("budget (cpu time of the part)".into());
         res.exhaustive = false;
     }
     for (sig, msg, p) in viols {
